@@ -270,6 +270,9 @@ def run(L, rep, tier, seed):
                             'startup_schedule_steps': len(sched), 'max_events_per_worker': me, 'commands': len(enc.cmds),
                             'lock_protected_objects': enc.protected, 'build_s': round(time.time() - t0, 1)}
         report_results(rep, 'C08', name, res, KNOWN, [name, n, ndyn, K])
+    # worker bookkeeping (registrations balanced when a surplus worker retires): the dispatch decision relies on it
+    from props import c20
+    c20.worker_contract(L, rep, tier, seed, prop='C08')
 
 
 def report_results(rep, prop, name, res, known, cfg):
